@@ -102,6 +102,7 @@ class Runner:
         self.tainted = False
         self.pending_probe = []
         self.frozen = []
+        self.last_written = None
         self.stats = {'ops': {}, 'errors': {}, 'bounds_on_cp': 0, 'bounds_adj_cp': 0, 'bounds': 0,
                       'conflicts': 0, 'text_len': {}, 'timeouts': 0}
         signal.signal(signal.SIGALRM, _alarm)
@@ -271,6 +272,8 @@ class Runner:
     def framed(self, writes, fn):
         """run fn(); every live value not in `writes` (by identity) must be observably unchanged"""
         before = [(v, O.Snap(v)) for v in self.live if not any(v is w for w in writes)]
+        if writes:
+            self.last_written = writes[0]
         res = fn()
         viol = []
         if isinstance(res, tuple) and len(res) == 2 and res[0] == 'ok':
@@ -401,6 +404,14 @@ class Runner:
         if rng.random() < 0.3: st = 0
         if rng.random() < 0.3: en = None
         top = rng.random() < 0.6
+        if rng.random() < 0.15:
+            # directed: re-apply a setting exactly where an equal-valued one stops (or starts)
+            stops = [(k, q) for k, p in x._fmts.items() for q in (p.rem if rng.random() < 0.7 else p.add)]
+            if stops:
+                k, q = rng.choice(stops)
+                a = ('obj', str(q))
+                st = k
+                en = rng.choice([None, k + 1, k + 2, len(x._s)])
         self.do_apply(x, a, st, en, top)
 
     def do_apply(self, x, a, st, en, top):
@@ -662,6 +673,12 @@ class Runner:
                 b.remove_formatting(self.mod.AnsiSetting(rng.choice(ts)), 1)
             if len(t) > 2 and ts and rng.random() < 0.5:
                 b.apply_formatting(self.mod.AnsiSetting(rng.choice(ts)), 1, 2)
+            if ts and rng.random() < 0.35:
+                # the same setting objects on two separate stretches of the right operand
+                src = self.A(self.text(2, 4) + 'xy', *[self.mod.AnsiSetting(q) for q in ts])
+                b = src[0:1] + rng.choice(['-', '']) + src[1:2] + rng.choice(['.', '', 'zz'])
+                if rng.random() < 0.4:
+                    b = b + src[2:3]
             kv = ('A', b)
         else:
             kv = self.operand()
@@ -838,6 +855,9 @@ class Runner:
         x = self.pick()
         spec = self.spec() if rng.random() < 0.5 else rng.choice([None, ''])
         o, rs, re_ = rng.random() < 0.6, rng.random() < 0.4, rng.random() < 0.7
+        self.do_tostr(x, spec, o, rs, re_)
+
+    def do_tostr(self, x, spec, o, rs, re_):
         ids = P.InIds()
         inp = self._inp = P.line('tostr', P.e_astr(x, ids), P.e_optstr(spec), P.e_bool(o), P.e_bool(rs), P.e_bool(re_))
         pre = O.Snap(x)
@@ -1488,41 +1508,60 @@ class Runner:
               'roundtrip': 3, 'strip': 3, 'affix': 2, 'split': 4, 'replace': 4, 'case': 2, 'assign': 2,
               'expandtabs': 1, 'query': 2, 'match': 3, 'twin': 2}
 
+    def run_op(self, nm):
+        """run one generated operation; a harness failure while observing a value is a finding
+        (a reachable value that can no longer be observed), never a crash"""
+        self._inp = None
+        try:
+            getattr(self, 'op_' + nm)()
+        except Timeout:
+            raise
+        except Exception as e:   # noqa
+            import traceback
+            tb = traceback.format_exc().strip().split('\n')
+            vs = [('C09', 'self_check', 'a reachable value can no longer be observed: %r | %s' % (e, ' / '.join(tb[-4:])[:400]))]
+            own = self.OP_PROP.get(nm)
+            if own:
+                # the operation's own result (or receiver) is broken: its property fails on this input
+                vs.append((own, 'result_unobservable', 'after %s a value raises when queried: %r' % (nm, e)))
+            self.emit('noop-' + nm, getattr(self, '_inp', None), 'impl: observation failed', 'observation of a live value failed during op %s' % nm, vs)
+            self.tainted = True
+
+    def guard(self, nm, fn):
+        """like run_op for a directly parameterised operation (small-scope enumeration)"""
+        self.op__tmp = fn
+        self.run_op('_tmp')
+        own = self.OP_PROP.get(nm)
+        if self.steps and self.steps[-1].op == 'noop-_tmp' and own:
+            self.steps[-1].viol.append((own, 'result_unobservable', 'after %s a value raises when queried' % nm))
+
     def history(self, hidx, length):
         self.live = []
         self.frozen = []
+        self.tainted = False
         start = len(self.steps)
         for _ in range(self.rng.randint(1, 3)):
-            self.op_new()
+            self.run_op('new')
             if not self.live:
                 self.live.append(self.A(self.text(1, 6), 'red'))
         if self.live and self.rng.random() < 0.8:
             for _ in range(self.rng.randint(1, 3)):
-                self.op_apply()
+                if not self.tainted:
+                    self.run_op('apply')
         names = self.OPS
         ws = [self.BASE_W[n] * self.weights.get(n, 1) for n in names]
-        self.tainted = False
         for _ in range(length):
             if self.tainted:
                 break
             nm = self.rng.choices(names, ws)[0]
-            self._inp = None
-            try:
-                getattr(self, 'op_' + nm)()
-            except Timeout:
-                raise
-            except Exception as e:   # noqa
-                # the harness itself failed while observing a value: a live value is broken
-                # (it fails the library's self-check or cannot be rendered) — that is a C09 violation
-                import traceback
-                tb = traceback.format_exc().strip().split('\n')
-                vs = [('C09', 'self_check', 'a reachable value can no longer be observed: %r | %s' % (e, ' / '.join(tb[-4:])[:400]))]
-                own = self.OP_PROP.get(nm)
-                if own:
-                    # the operation's own result (or receiver) is broken: its property fails on this input
-                    vs.append((own, 'result_unobservable', 'after %s a value raises when queried: %r' % (nm, e)))
-                self.emit('noop-' + nm, getattr(self, '_inp', None), 'impl: observation failed', 'observation of a live value failed during op %s' % nm, vs)
-                self.tainted = True
+            self.last_written = None
+            self.run_op(nm)
+            w = self.last_written
+            if w is not None and not self.tainted and self.rng.random() < 0.35 and any(w is v for v in self.live):
+                # render the value that was just mutated in place (a cache that was not invalidated, a
+                # table that only fails when replayed)
+                self.op__tmp = lambda: self.do_tostr(w, None, True, self.rng.random() < 0.3, self.rng.random() < 0.7)
+                self.run_op('_tmp')
             for v in self.live:
                 self.stats['text_len'][len(v._s)] = self.stats['text_len'].get(len(v._s), 0) + 1
         for k, st in enumerate(self.steps[start:]):
@@ -1551,27 +1590,29 @@ def exhaustive(runner, family, nbases=120):
         if family == 'slice':
             for a in bounds:
                 for b in bounds:
-                    runner.do_slice(x, a, b, 'getitem', False)
+                    runner.guard('slice', lambda: runner.do_slice(x, a, b, 'getitem', False))
         elif family == 'apply':
             for a in bounds[::2] if len(bases) > 60 else bounds:
                 for b in bounds:
                     for top in (True, False):
                         y = x.copy(); runner.live = [y]
-                        runner.do_apply(y, setts[(hash((a, b)) % 3)], a, b, top)
+                        runner.guard('apply', lambda: runner.do_apply(y, setts[(hash((a, b)) % 3)], a, b, top))
         elif family == 'remove':
             for a in bounds:
                 for b in bounds:
                     y = x.copy(); runner.live = [y]
-                    runner.do_remove(y, rng.choice([None, ('obj', '31'), ('obj', '34'), ('obj', '1'), ('list', [('obj', '31'), ('obj', '1')])]), a, b)
+                    sel = rng.choice([None, ('obj', '31'), ('obj', '34'), ('obj', '1'), ('list', [('obj', '31'), ('obj', '1')])])
+                    runner.guard('remove', lambda: runner.do_remove(y, sel, a, b))
         elif family == 'find':
             for a in bounds:
                 for b in bounds:
-                    runner.do_find(x, rng.choice([('obj', '31'), ('obj', '34'), ('obj', '1'), ('list', [('obj', '31'), ('obj', '1')])]), a, b, rng.random() < 0.4)
+                    sel = rng.choice([('obj', '31'), ('obj', '34'), ('obj', '1'), ('list', [('obj', '31'), ('obj', '1')])])
+                    runner.guard('find', lambda: runner.do_find(x, sel, a, b, rng.random() < 0.4))
         elif family == 'pad':
             for kind in ('ljust', 'rjust', 'center'):
                 for w in range(0, 10):
                     for ext in (True, False):
-                        runner.do_pad(x, kind, w, '*', ext, False, False)
+                        runner.guard('pad', lambda: runner.do_pad(x, kind, w, '*', ext, False, False))
         if runner.tainted:
             break
     for k, st in enumerate(runner.steps):
